@@ -184,7 +184,7 @@ Section RA.
   Definition calls_ok s s' : Prop :=
     forall i c', nth_error (calls s') i = Some c' ->
       exists c, nth_error (calls s) i = Some c /\ c_id c' = c_id c /\
-                (c_phase c' = c_phase c \/ (livep (c_phase c) = true /\ livep (c_phase c') = true)).
+                (c_phase c' = c_phase c \/ (c_phase c = PAcquiring /\ c_phase c' = PAssigned)).
 
   Lemma calls_ok_eq s s' : calls s' = calls s -> calls_ok s s'.
   Proof. intros E i c' H. rewrite E in H. exists c'. auto. Qed.
@@ -604,7 +604,7 @@ Section OpFrames.
   Definition lok (l l' : list call) (i : nat) : Prop :=
     forall j c', j <> i -> nth_error l' j = Some c' ->
       exists c, nth_error l j = Some c /\ c_id c' = c_id c /\
-                (c_phase c' = c_phase c \/ (livep (c_phase c) = true /\ livep (c_phase c') = true)).
+                (c_phase c' = c_phase c \/ (c_phase c = PAcquiring /\ c_phase c' = PAssigned)).
 
   Lemma lok_refl l i : lok l l i.
   Proof. intros j c' _ H. exists c'. auto. Qed.
@@ -623,10 +623,10 @@ Section OpFrames.
     intros j c' Hn H. apply nth_error_phase_calls_inv in H. destruct H as [[-> _]|[_ H]]; [congruence|].
     exists c'. auto.
   Qed.
-  Lemma lok_phase_live l w p c i :
-    nth_error l w = Some c -> livep (c_phase c) = true -> livep p = true -> lok l (phase_calls l w p) i.
+  Lemma lok_phase_assign l w c i :
+    nth_error l w = Some c -> c_phase c = PAcquiring -> lok l (phase_calls l w PAssigned) i.
   Proof.
-    intros Hc Hl Hp j c' Hn H. apply nth_error_phase_calls_inv in H.
+    intros Hc Hl j c' Hn H. apply nth_error_phase_calls_inv in H.
     destruct H as [[-> (c0 & Hc0 & ->)]|[_ H]]; [|exists c'; auto].
     exists c0. split; [exact Hc0|]. split; [reflexivity|]. right.
     assert (c0 = c) by congruence. subst. auto.
@@ -669,12 +669,11 @@ Section OpFrames.
   Proof.
     rewrite set_phase_alt. constructor; try reflexivity; try tauto; try lia; apply lok_phase_self.
   Qed.
-  Lemma OpFr_set_phase_live s w p c i :
-    nth_error (calls s) w = Some c -> livep (c_phase c) = true -> livep p = true ->
-    OpFr s (set_phase s w p) i.
+  Lemma OpFr_set_phase_assign s w c i :
+    nth_error (calls s) w = Some c -> c_phase c = PAcquiring -> OpFr s (set_phase s w PAssigned) i.
   Proof.
-    intros Hc Hl Hp. rewrite set_phase_alt. constructor; try reflexivity; try tauto; try lia.
-    eapply lok_phase_live; eassumption.
+    intros Hc Hl. rewrite set_phase_alt. constructor; try reflexivity; try tauto; try lia.
+    eapply lok_phase_assign; eassumption.
   Qed.
   Lemma OpFr_upd_q s a b c d i : OpFr s (upd_q s a b c d) i.
   Proof. constructor; try reflexivity; try tauto; try lia; apply lok_refl. Qed.
@@ -697,7 +696,7 @@ Section OpFrames.
   Proof.
     intros [Wa _]. unfold release_permit. destruct (waiters s) as [|w r] eqn:Ew; [apply OpFr_upd_q|].
     destruct (Wa w) as (c & Hc & Hp); [first [left; reflexivity|rewrite Ew; left; reflexivity]|].
-    eapply OpFr_trans; [apply OpFr_upd_q|]. eapply (OpFr_set_phase_live _ w PAssigned c); [exact Hc|rewrite Hp|]; reflexivity.
+    eapply OpFr_trans; [apply OpFr_upd_q|]. eapply (OpFr_set_phase_assign _ w c); [exact Hc|exact Hp].
   Qed.
   Lemma OpFr_fail_shutdown s i id : OpFr s (snd (fail_shutdown s i id)) i.
   Proof.
@@ -733,12 +732,12 @@ Section OpFrames.
   Qed.
 
   Lemma OpFr_release_permit' s i :
-    (forall w, In w (waiters s) -> exists c, nth_error (calls s) w = Some c /\ livep (c_phase c) = true) ->
+    (forall w, In w (waiters s) -> exists c, nth_error (calls s) w = Some c /\ c_phase c = PAcquiring) ->
     OpFr s (release_permit s) i.
   Proof.
     intros Wa. unfold release_permit. destruct (waiters s) as [|w r] eqn:Ew; [apply OpFr_upd_q|].
     destruct (Wa w) as (c & Hc & Hp); [first [left; reflexivity|rewrite Ew; left; reflexivity]|].
-    eapply OpFr_trans; [apply OpFr_upd_q|]. eapply (OpFr_set_phase_live _ w PAssigned c); [exact Hc|exact Hp|reflexivity].
+    eapply OpFr_trans; [apply OpFr_upd_q|]. eapply (OpFr_set_phase_assign _ w c); [exact Hc|exact Hp].
   Qed.
 
   Lemma OpFr_poll_call s i : next_id s + 1 < two64 -> OpFr s (snd (poll_call s i)) i.
@@ -776,7 +775,7 @@ Section OpFrames.
       destruct (w_acq _ W w Hw) as (cw & Hcw & Hpw).
       assert (Hn : w <> i) by (intros ->; congruence).
       exists cw. rewrite nth_error_phase_calls. apply Nat.eqb_neq in Hn. rewrite Nat.eqb_sym, Hn.
-      split; [exact Hcw|rewrite Hpw; reflexivity].
+      split; [exact Hcw|exact Hpw].
     - eapply OpFr_trans; [apply OpFr_slot_tx_drop|].
       eapply OpFr_trans; [apply OpFr_slot_rx_close|apply OpFr_set_phase].
     - eapply OpFr_trans; [apply OpFr_slot_rx_close|apply OpFr_set_phase].
@@ -1236,7 +1235,7 @@ Section Run.
     (exists c, plog s' = plog s ++ [c] /\ (fused s' = fused s \/ c = CNext REof) /\
        match c with
        | CSend (MReq _ _ _ _) _ => queue s <> []
-       | CSend (MCancel _ _) _ => cancels s <> []
+       | CSend (MCancel id _) _ => In id (cancels s) /\ In id (map fst (inflight s))
        | CClose _ => senders s = 0%nat /\ cancels s = []
        | _ => True
        end).
@@ -1277,7 +1276,10 @@ Section Run.
       apply do_send_eq in H1. rewrite H1. cbn [plog fused upd_tr].
       rewrite (if_plog _ _ F2), (if_plog _ _ F), (if_fused _ _ F2), (if_fused _ _ F).
       split; [reflexivity|]. split; [left; reflexivity|].
-      revert H. unfold c_poll_recv. destruct (cancels s); [|discriminate]. destruct (Nat.eqb _ _); discriminate.
+      revert H H0. unfold c_poll_recv, cancel_request.
+      destruct (cancels s) as [|y l]; [destruct (Nat.eqb _ _); discriminate|]. intros [= -> <-].
+      cbn [inflight upd_cancels]. destruct (alookup id (inflight s)) eqn:Ea; [|discriminate]. intros _.
+      split; [left; reflexivity|]. apply alookup_in in Ea. apply in_map_iff. exists (id, i). auto.
     - left. pose proof (TFrame_poll_expired s) as F. rewrite H in F. apply TFrame_I in F.
       split; apply F.
   Qed.
@@ -1307,7 +1309,7 @@ Section Run.
       + cbn [chk_call v10]. apply negb_true_iff. destruct (m_close_called (cur mb s)) eqn:Ec; [|reflexivity].
         exfalso. apply K. apply (ra_cc _ _ R Ec).
       + cbn [chk_call v10]. apply negb_true_iff. destruct (m_close_called (cur mb s)) eqn:Ec; [|reflexivity].
-        exfalso. apply K. apply (ra_cc _ _ R Ec).
+        exfalso. destruct K as [K _]. destruct (ra_cc _ _ R Ec) as (_ & _ & K3). rewrite K3 in K. exact K.
       + destruct K as [K1 K2]. apply (close_v10 maxif (cur mb s) s x (ds_sim _ _ _ D) R K1 K2 Ht Hd).
     - intro Hf. destruct (mstep_entry _ _ _ H) as [[E Ef]|(c & E & [Ef| ->] & _)].
       + rewrite E. apply J. congruence.
@@ -1383,3 +1385,209 @@ Section Run.
       destruct Hc as [[-> _]|[-> _]]; auto.
   Qed.
 End Run.
+
+(* ================================================================== C10 *)
+Section C10.
+  Context {T : Type}.
+  Variable tp : transport T cmsg resp.
+  Variable fuel_of : @cstate T -> nat.
+  Variable maxif : nat.
+  Notation cstate := (@cstate T).
+  Notation op := (@op T).
+  Notation Inv := (InvX []).
+  Implicit Types (s : cstate) (m : mst).
+
+  Definition running s : Prop := terminal s = None /\ dropped s = false /\ finished s = None.
+
+  Record R10 m s : Prop := {
+    r10_09 : R09 m s;
+    r10_ra : running s -> RA m s;
+    r10_fu : running s -> fused s = false }.
+
+  Lemma RA_init t0 qcap mif : RA m0 (init (T:=T) t0 qcap mif).
+  Proof.
+    constructor; cbn [m_sent m_polled m_close_called m0 calls timers init]; try (intros; contradiction);
+      try discriminate.
+  Qed.
+
+  Lemma R10_init t0 qcap mif : R10 m0 (init (T:=T) t0 qcap mif).
+  Proof. constructor; [apply R09_init|intros _; apply RA_init|reflexivity]. Qed.
+
+  (* the pump loop of one poll *)
+  Lemma c10_run_loop m s0 f rr sA :
+    run_loop tp f s0 = (rr, sA) -> plog s0 = [] -> sim m s0 -> RA m s0 -> fused s0 = false ->
+    terminal s0 = None -> dropped s0 = false ->
+    v10 (fst (chk_calls maxif m (plog sA))) = true /\
+    RA (mrun m (plog sA)) sA /\
+    (rr = RunOk -> existsb end_mark (plog sA) = true) /\
+    (rr = RunPending \/ rr = RunFuel -> fused sA = false).
+  Proof.
+    intros H Hp S R Hf Ht Hd.
+    assert (D0 : DRun maxif m s0).
+    { constructor; try assumption.
+      - constructor; unfold cur; rewrite Hp; [exact S|reflexivity].
+      - unfold cur. rewrite Hp. exact R.
+      - rewrite Hp. reflexivity.
+      - congruence. }
+    pose proof (DRun_msteps tp maxif m _ _ _ (run_loop_msteps tp _ _ _ _ H) D0) as D1.
+    split; [apply D1|]. split; [apply D1|]. split.
+    - intros ->. eapply run_loop_ok_log; eassumption.
+    - intro Hr. eapply run_loop_fused; eassumption.
+  Qed.
+
+  Lemma running_UFrame s s' : UFrame s s' -> running s' -> running s.
+  Proof. intros [] (H1 & H2 & H3). repeat split; congruence. Qed.
+
+  Lemma poll_dispatch_frames f s0 r s1 :
+    poll_dispatch tp f s0 = (r, s1) -> finished s1 = finished s0 /\ dropped s1 = dropped s0.
+  Proof.
+    unfold poll_dispatch. destruct (terminal s0) as [a|].
+    - destruct (shut_down s0 a) as [b sx] eqn:Ex. apply PFrame_shut_down in Ex.
+      destruct b; intros [= _ <-]; split; apply Ex.
+    - destruct (run_loop tp f s0) as [rr sx] eqn:Ex. apply PFrame_run_loop in Ex.
+      destruct rr as [|a| |]; try (intros [= _ <-]; split; apply Ex).
+      destruct (shut_down (upd_term sx (Some a)) a) as [b sy] eqn:Ey. apply PFrame_shut_down in Ey.
+      destruct b; intros [= _ <-]; (split; [rewrite (pf_finished _ _ Ey)|rewrite (pf_dropped _ _ Ey)]);
+        apply Ex.
+  Qed.
+
+  Lemma c10_step m s (o : op) :
+    sim m s -> N.of_nat (S (length (m_polled m))) < two64 -> Inv s -> R10 m s ->
+    v10 (fst (chk_obs maxif o m (snd (step tp fuel_of s o)))) = true /\
+    R10 (snd (chk_obs maxif o m (snd (step tp fuel_of s o)))) (fst (step tp fuel_of s o)).
+  Proof.
+    intros HS Hw Iv [R9 RAr Fu].
+    destruct (c09_step tp fuel_of maxif m s o HS Hw Iv R9) as [V9 R9'].
+    assert (Hnid : next_id s + 1 < two64) by (rewrite (sc_next _ _ (sim_c _ _ HS)); lia).
+    assert (Nil : forall o' : op, (forall i, o' <> PollCall i) -> o' <> PollDispatch -> o' <> DropDispatch ->
+              R09 (snd (chk_obs maxif o' m (snd (step tp fuel_of s o')))) (fst (step tp fuel_of s o')) ->
+              v10 (fst (chk_obs maxif o' m (snd (step tp fuel_of s o')))) = true /\
+              R10 (snd (chk_obs maxif o' m (snd (step tp fuel_of s o')))) (fst (step tp fuel_of s o'))).
+    { intros o' H1 H2 H3 R9o. pose proof (step_nil_obs tp fuel_of s o' H1 H2) as E.
+      split; [rewrite E, chk_obs_nil; reflexivity|].
+      assert (F : UFrame s (fst (step tp fuel_of s o'))).
+      { destruct (step tp fuel_of s o') as [sx osx] eqn:Es. eapply (UFrame_step tp fuel_of); eassumption. }
+      constructor; [exact R9o| |].
+      - intro Hr. apply RA_step; try assumption. apply RAr. eapply running_UFrame; eassumption.
+      - intro Hr. rewrite (uf_fused _ _ F). apply Fu. eapply running_UFrame; eassumption. }
+    destruct o; try (apply Nil; [intros j; discriminate|discriminate|discriminate|exact R9']).
+    - (* PollCall *)
+      clear Nil. split.
+      + revert V9. cbn [step]. destruct (poll_call s i) as [r s']. cbn [fst snd].
+        destruct r as [|out|]; cbn [fst snd chk_obs]; [cbn [v09 v10]; tauto|reflexivity|reflexivity].
+      + assert (F : UFrame s (fst (step tp fuel_of s (PollCall i)))).
+        { destruct (step tp fuel_of s (PollCall i)) as [sx osx] eqn:Es.
+          eapply (UFrame_step tp fuel_of); [exact Es|discriminate|discriminate]. }
+        constructor; [exact R9'| |].
+        * intro Hr. apply RA_step; try assumption; try discriminate. apply RAr. eapply running_UFrame; eassumption.
+        * intro Hr. rewrite (uf_fused _ _ F). apply Fu. eapply running_UFrame; eassumption.
+    - (* PollDispatch *)
+      clear Nil.
+      destruct (finished s) as [d|] eqn:Ef.
+      { revert R9'. cbn [step]. rewrite Ef. cbn. intro R9'. split; [reflexivity|].
+        constructor; [exact R9'|intros (_ & _ & H); congruence|intros (_ & _ & H); congruence]. }
+      destruct (dropped s) eqn:Ed.
+      { revert R9'. cbn [step]. rewrite Ef, Ed. cbn. intro R9'. split; [reflexivity|].
+        constructor; [exact R9'|intros (_ & H & _); congruence|intros (_ & H & _); congruence]. }
+      set (s0 := upd_tr s (tr s) (fused s) []).
+      destruct (poll_dispatch tp (fuel_of s0) s0) as [r s1] eqn:E.
+      set (s2 := match r with DReady d => upd_fin s1 (Some d) (dropped s1) | _ => s1 end).
+      assert (Est : step tp fuel_of s PollDispatch =
+                    (upd_tr s2 (tr s2) (fused s2) [],
+                     [OCalls (plog s1); ODisp r;
+                      OGauge (N.of_nat (length (inflight s2))) (N.of_nat (length (timers s2)))])).
+      { cbn [step]. rewrite Ef, Ed. fold s0. rewrite E. reflexivity. }
+      revert R9'. rewrite Est. cbn [fst snd]. intro R9'.
+      destruct (poll_dispatch_frames _ _ _ _ E) as [PF1 PF2]. cbn [finished dropped upd_tr s0] in PF1, PF2.
+      (* what the poll did *)
+      assert (K : v10 (fst (chk_calls maxif m (plog s1))) = true /\
+                  (r = DReady DOk -> existsb end_mark (plog s1) = true) /\
+                  (running s2 -> RA (mrun m (plog s1)) s1 /\ fused s1 = false)).
+      { revert E. unfold poll_dispatch. destruct (terminal s0) as [a|] eqn:Et.
+        - destruct (shut_down s0 a) as [b sx] eqn:Ex.
+          pose proof (plog_shut_down _ _ _ _ Ex) as P1. pose proof (PFrame_shut_down _ _ _ _ Ex) as F1.
+          assert (Pl : plog s1 = [] -> terminal s1 = Some a ->
+                       v10 (fst (chk_calls maxif m (plog s1))) = true /\
+                       (r = DReady DOk -> existsb end_mark (plog s1) = true) /\
+                       (running s2 -> RA (mrun m (plog s1)) s1 /\ fused s1 = false) ->
+                       v10 (fst (chk_calls maxif m (plog s1))) = true /\
+                       (r = DReady DOk -> existsb end_mark (plog s1) = true) /\
+                       (running s2 -> RA (mrun m (plog s1)) s1 /\ fused s1 = false)) by tauto.
+          destruct b; intros [= <- <-]; rewrite P1; cbn [plog upd_tr s0 chk_calls fst];
+            (split; [reflexivity|split; [discriminate|]]); intros (H1 & _ & _); exfalso;
+            unfold s2 in H1; cbn [terminal upd_fin] in H1; rewrite (pf_terminal _ _ F1) in H1; congruence.
+        - destruct (run_loop tp (fuel_of s0) s0) as [rr sA] eqn:Ex.
+          assert (Hrun : running s) by (repeat split; [exact Et|exact Ed|exact Ef]).
+          assert (S0 : sim m s0) by (eapply sim_frame; [exact HS|reflexivity..]).
+          assert (R0 : RA m s0).
+          { exact (RA_frame m m s s0 eq_refl eq_refl eq_refl eq_refl eq_refl eq_refl
+                     eq_refl eq_refl eq_refl eq_refl eq_refl eq_refl eq_refl eq_refl eq_refl (RAr Hrun)). }
+          destruct (c10_run_loop m s0 _ _ _ Ex eq_refl S0 R0 (Fu Hrun) Et Ed) as (V & RA1 & Hok & Hfu).
+          destruct rr as [|a| |].
+          + intros [= <- <-]. split; [exact V|]. split; [intros _; apply Hok; reflexivity|].
+            intros (_ & _ & H). unfold s2 in H. cbn in H. discriminate.
+          + destruct (shut_down (upd_term sA (Some a)) a) as [b sy] eqn:Ey.
+            pose proof (plog_shut_down _ _ _ _ Ey) as P2. pose proof (PFrame_shut_down _ _ _ _ Ey) as F2.
+            cbn [plog upd_term] in P2.
+            destruct b; intros [= <- <-]; rewrite P2; (split; [exact V|split; [discriminate|]]);
+              intros (H1 & _ & _); exfalso; unfold s2 in H1; cbn [terminal upd_fin] in H1;
+              rewrite (pf_terminal _ _ F2) in H1; discriminate.
+          + intros [= <- <-]. split; [exact V|]. split; [discriminate|]. intros _.
+            split; [exact RA1|apply Hfu; left; reflexivity].
+          + intros [= <- <-]. split; [exact V|]. split; [discriminate|]. intros _.
+            split; [exact RA1|apply Hfu; right; reflexivity]. }
+      destruct K as (V & Hok & Hrun').
+      revert R9'. cbn [chk_obs rec_op].
+      pose proof (chk_calls_snd maxif m (plog s1)) as Esnd.
+      destruct (chk_calls maxif m (plog s1)) as [v m2]. cbn [fst snd] in V, Esnd. subst m2.
+      destruct (c_poll _ _ _) as [okc c2]. cbn [fst snd vand v10]. intro R9'. rewrite V. cbn [andb]. split.
+      * destruct r as [[|a]| |]; try reflexivity. apply Hok. reflexivity.
+      * constructor; [exact R9'| |].
+        -- intros Hr. assert (Hr2 : running s2) by exact Hr. destruct (Hrun' Hr2) as [RA1 _].
+           assert (Es2 : s2 = s1).
+           { unfold s2 in *. destruct r as [d| |]; try reflexivity.
+             destruct Hr2 as (_ & _ & H). cbn in H. discriminate. }
+           rewrite Es2.
+           match goal with |- RA ?mm ?ss =>
+             exact (RA_frame (mrun m (plog s1)) mm s1 ss eq_refl eq_refl eq_refl eq_refl eq_refl eq_refl
+                      eq_refl eq_refl eq_refl eq_refl eq_refl eq_refl eq_refl eq_refl eq_refl RA1) end.
+        -- intros Hr. assert (Hr2 : running s2) by exact Hr. destruct (Hrun' Hr2) as [_ F1].
+           assert (Es2 : s2 = s1).
+           { unfold s2 in *. destruct r as [d| |]; try reflexivity.
+             destruct Hr2 as (_ & _ & H). cbn in H. discriminate. }
+           rewrite Es2. exact F1.
+    - (* DropDispatch *)
+      clear Nil. split; [reflexivity|]. revert R9'. cbn [step fst snd]. rewrite chk_obs_nil. cbn [snd].
+      intro R9'. constructor; [exact R9'| |]; intros (_ & H & _); exfalso; revert H;
+        (destruct (dropped s) eqn:Ed; [congruence|]); destruct (drop_dispatch_frame s) as (_ & _ & F3); congruence.
+  Qed.
+
+  Lemma c10_run (ops : list op) : forall m s,
+    sim m s -> N.of_nat (length (m_polled m) + length ops) < two64 -> Inv s -> R10 m s ->
+    v10 (chk_run maxif m ops (fst (run_from tp fuel_of s ops))) = true.
+  Proof.
+    induction ops as [|o ops IH]; intros m s HS Hw Iv R; cbn [run_from chk_run fst]; [reflexivity|].
+    assert (Hw1 : N.of_nat (S (length (m_polled m))) < two64) by (cbn [length] in Hw; lia).
+    destruct (c10_step m s o HS Hw1 Iv R) as [V R'].
+    pose proof (sim_step tp fuel_of maxif m s o HS Hw1) as HS'.
+    pose proof (polled_chk_obs_le maxif m o (snd (step tp fuel_of s o))) as Hle.
+    assert (Iv' : Inv (fst (step tp fuel_of s o))).
+    { destruct (step tp fuel_of s o) as [s1 l] eqn:Es. cbn [fst].
+      eapply (Inv_step tp fuel_of); [exact Es| |exact Iv].
+      rewrite (sc_next _ _ (sim_c _ _ HS)). lia. }
+    destruct (step tp fuel_of s o) as [s1 l]. cbn [fst snd] in *.
+    destruct (run_from tp fuel_of s1 ops) as [ls s2] eqn:Er. cbn [fst].
+    destruct (chk_obs maxif o m l) as [v m']. cbn [fst snd] in *. cbn [vand v10].
+    rewrite V. cbn [andb].
+    specialize (IH m' s1 HS'). rewrite Er in IH. apply IH; [|exact Iv'|exact R'].
+    cbn [length] in Hw. lia.
+  Qed.
+End C10.
+
+Theorem c10_orderly_shutdown {T : Type} : @stmt_c10 T.
+Proof.
+  intros tp fuel_of t0 qcap maxif ops Hw. unfold c10_ok, monitors, client_trace.
+  apply c10_run; [apply sim_init| |apply Inv_init|apply R10_init].
+  unfold no_wrap in Hw. cbn. unfold two64. lia.
+Qed.
+Print Assumptions c10_orderly_shutdown.
